@@ -54,6 +54,7 @@ type Config struct {
 	Watch       []string `json:"watch"`        // two-thread mode: functions (name prefixes) with preemption points
 	MaxSwitches int      `json:"max_switches"` // two-thread mode: bound on context switches
 	MapOrder    []string `json:"map_order"`    // functions (name substrings) in which the iteration order of Go maps is a free decision (while verif.FreeMapOrder(true))
+	MaxOrderSites int    `json:"max_order_sites"` // at most this many traversals per path get an order other than the sorted one (default 1)
 	MaxMapPerm  int      `json:"max_map_perm"` // only the first max_map_perm entries of a ranged map are permuted (default 4)
 	OpaquePkgs []string `json:"opaque_pkgs"` // every function of these packages returns the zero value
 	opaquePkg  map[string]bool
